@@ -417,6 +417,21 @@ class ExcFlow(object):
                         return []
                 return ['TypeError']
             return []
+        if nm == 'join' and isinstance(call.func, ast.Attribute) and \
+                isinstance(call.func.value, ast.Constant) and isinstance(
+                    call.func.value.value, str) and len(call.args) == 1 and \
+                isinstance(call.args[0], ast.Attribute) and \
+                call.args[0].attr == 'args' and isinstance(
+                    call.args[0].value, ast.Name):
+            # ' '.join(e.args): the args of an exception are whatever its
+            # raiser passed (msgpack.ExtraData: (object, bytes))
+            exc = call.args[0].value.id
+            p = parent(call)
+            while p is not None and p is not f.node:
+                if isinstance(p, ast.ExceptHandler) and p.name == exc:
+                    return ['TypeError']
+                p = parent(p)
+            return []
         if nm == 'int' and isinstance(call.func, ast.Name) and \
                 len(call.args) == 2 and isinstance(
                     call.args[1], ast.Constant) and isinstance(
